@@ -8,10 +8,14 @@ for d in sorted(glob.glob(os.path.join(ROOT, 'seeded', '*'))):
     rows.append((os.path.basename(d), m))
 out = ["| seeded change | files | needs in order to manifest | detected by | first run | strengthening it led to |", "|---|---|---|---|---|---|"]
 for name, m in rows:
-    out.append("| %s | %s | %s | %s | %s | %s |" % (name, ', '.join(m['files_changed']), m['needs_to_manifest'], ', '.join(m['detected_by']), m['first_run'], m.get('strengthening') or '–'))
+    det = ', '.join(m['detected_by'])
+    if m.get('moot_since'):
+        det += ' (until it became behaviour preserving: ' + m['moot_since'].split(' (')[0] + ')'
+    out.append("| %s | %s | %s | %s | %s | %s |" % (name, ', '.join(m['files_changed']), m['needs_to_manifest'], det, m['first_run'], m.get('strengthening') or '–'))
+moot = sum(1 for _, m in rows if m.get('moot_since'))
 missed = sum(1 for _, m in rows if m['first_run'].startswith('missed'))
 partial = sum(1 for _, m in rows if m['first_run'].startswith('caught by') )
-summary = "%d seeded changes (each: compiles, passes the repository's suite, has a demonstration that fails with it and passes without it; confirmed with tools/evalmut.sh). On their first run %d were missed by every check, %d were caught only by the check of another property, the rest by the targeted check; after the strengthening listed all %d are detected (by the checks named), and every check still passes on the unchanged tree." % (len(rows), missed, partial, len(rows))
+summary = "%d seeded changes (each: compiles, passes the repository's suite, has a demonstration that fails with it and passes without it; confirmed with tools/evalmut.sh). On their first run %d were missed by every check, %d were caught only by the check of another property, the rest by the targeted check; after the strengthening listed all %d are detected (by the checks named), and every check still passes on the unchanged tree. %d of them became behaviour preserving through a later repair of /repo (the demonstration passes with the change on the current HEAD; marked in the table) and are kept for the record only." % (len(rows), missed, partial, len(rows), moot)
 s = open(os.path.join(ROOT, 'DESIGN.md')).read()
 block = "<!-- seeded-table-begin -->\n" + summary + "\n\n" + "\n".join(out) + "\n<!-- seeded-table-end -->"
 if '<!-- seeded-table-begin -->' in s:
